@@ -1,8 +1,9 @@
 //! C04 — parsing untrusted bytes never panics, aborts or hangs.
 //!
-//!   c04 seeds  --seed S --n N --docs F --out F     seeds for spec/Adversary.tla: abstract documents for the Producer
-//!                                                   (--docs, same format as c02) and legal inputs of every other
-//!                                                   byte-level entry point + real files (assets, files saved by lopdf)
+//!   c04 seeds  --seed S --n N --out F              seeds for spec/Adversary.tla: legal inputs of every byte-level entry
+//!                                                   point other than whole files from the Producer, and real files
+//!                                                   (repository assets, files saved by lopdf); the abstract documents
+//!                                                   for the Producer come from `c02 docs`
 //!   c04 bulk   --seed S --n N --out F               byte-level mutants (FlipByte / Truncate / SpliceToken / SetNumber on
 //!                                                   digit runs) of the real files, for volume
 //!   c04 run    --in F --out F [--jobs J]            supervisor: every case runs in an isolated child worker
@@ -702,7 +703,9 @@ const BIN_TOKS: &[&str] = &["\u{0}", "\u{1}", "\u{4}", "\u{5}", "\u{7f}"];
 const OBJ_TOKS: &[&str] = &["<<", ">>", "[", "]", "(", ")", "R", "/", "<", ">", "-", " "];
 
 fn seed_rec(ep: &str, bytes: &[u8], dict: Value, toks_: Value, tag: &str) -> Value {
-    json!({"ep": ep, "bytes": bytes_to_json(bytes), "dict": dict, "toks": toks_, "tag": tag})
+    // txt: the payload is text a lexical scan can find sites in (not compressed / binary data)
+    let txt = matches!(ep, "file" | "content") || tag == "cmap" || tag == "objstm";
+    json!({"ep": ep, "bytes": bytes_to_json(bytes), "dict": dict, "toks": toks_, "tag": tag, "txt": txt})
 }
 
 fn real_files(rng: &mut Rng, n: usize) -> Vec<(String, Vec<u8>)> {
@@ -740,40 +743,10 @@ fn real_files(rng: &mut Rng, n: usize) -> Vec<(String, Vec<u8>)> {
     v
 }
 
-fn docs_for_producer(rng: &mut Rng, n: u64, path: &str) {
-    // as c02 docs: abstract documents (file-side values) for the Producer; some stream Lengths indirect
-    let mut out = NdjsonOut::create(path);
-    for i in 0..n {
-        let mut doc = gen::random_document(rng, 5, i % 3 != 0, false);
-        let stream_ids: Vec<_> = doc.objects.iter().filter(|(_, o)| matches!(o, Object::Stream(_))).map(|(id, _)| *id).collect();
-        let mut next = doc.objects.keys().map(|k| k.0).max().unwrap_or(0);
-        for id in stream_ids {
-            let has_kw = doc.objects[&id].as_stream().unwrap().content.windows(9).any(|w| w == b"endstream");
-            if rng.chance(1, 3) && !has_kw {
-                next += 1;
-                let len = doc.objects[&id].as_stream().unwrap().content.len() as i64;
-                doc.objects.insert((next, 0), Object::Integer(len));
-                if let Some(Object::Stream(s)) = doc.objects.get_mut(&id) {
-                    s.dict.set("Length", Object::Reference((next, 0)));
-                }
-            } else if let Some(Object::Stream(s)) = doc.objects.get_mut(&id) {
-                s.dict.remove(b"Length");
-            }
-        }
-        let objects: Vec<Value> = doc.objects.iter().map(|(id, o)| json!([id.0, id.1, obj_to_file_tla(o)])).collect();
-        out.put(&json!({"version": bytes_to_json(doc.version.as_bytes()), "binmark": bytes_to_json(&[0xE2u8, 0xE3, 0xCF, 0xD3]),
-                        "trailer": dict_to_file_tla(&doc.trailer), "objects": objects}));
-    }
-    out.finish();
-}
-
 fn seeds(args: &[String]) {
     let seed = arg_u64(args, "--seed", 1);
     let n = arg_u64(args, "--n", 8) as usize; // variants per entry point
     let mut rng = Rng::new(seed ^ 0xC04);
-    if let Some(p) = arg(args, "--docs") {
-        docs_for_producer(&mut rng, arg_u64(args, "--ndocs", 24), &p);
-    }
     let mut out = NdjsonOut::create(&arg(args, "--out").unwrap());
     let none = json!([]);
     for (tag, b) in real_files(&mut rng, n) {
@@ -949,7 +922,7 @@ fn main() {
         Some("run") => run(&args),
         Some("worker") => worker(),
         _ => {
-            eprintln!("usage: c04 seeds --seed S --n N [--docs F --ndocs K] --out F | bulk --seed S --n N --out F | run --in F --out F [--jobs J] | worker");
+            eprintln!("usage: c04 seeds --seed S --n N --out F | bulk --seed S --n N --out F | run --in F --out F [--jobs J] | worker");
             std::process::exit(2)
         }
     }
